@@ -1,2 +1,4 @@
 import Proofs.ScanLemmas
 import Proofs.C05
+import Proofs.ParseLemmas
+import Proofs.C06
